@@ -17,7 +17,7 @@ RULE = ('relabelling equivariance: for a seeded scenario S and a byte permutatio
         'Second oracle: a rule set that needs only 7-bit characters gives equal logs when built with -7 and with -8 on 7-bit input, and flex '
         'exits non-zero for an 8-bit pattern under -7.  distinct = event-log hash, non-trivial = >= 2 tokens and the swapped byte occurs in the input')
 TIERS = {
-    'quick': {'scenarios': 64, 'inputs': 6, 'wall_cap': 600},
+    'quick': {'scenarios': 128, 'inputs': 6, 'wall_cap': 600},
     'thorough': {'scenarios': 3000, 'inputs': 10, 'wall_cap': 3300},
 }
 COMPONENTS = sb.COMPONENTS
@@ -154,7 +154,7 @@ def gen_scn(rng, idx=0):
     # table representations are stratified over the scenario index: each one is visited
     tables = scenario.TABLE_OPTS[idx % len(scenario.TABLE_OPTS)]
     full_ecs = tables in ('-Cfe', '-Cfae')
-    if 'e' in (tables or '-Cem') and (full_ecs or rng.random() < 0.4):
+    if 'e' in (tables or '-Cem') and rng.random() < (0.5 if full_ecs else 0.4):
         # "binary run" family: no rule names NUL or an 8-bit byte, one rule takes the 7-bit rest and one takes runs
         # of everything else - with equivalence classes NUL then shares a class (the last one) with 0x80-0xff
         sc = scenario.gen_scenario(rng, want={'flavors': ['nr', 'nr', 'r', 'r', 'c99', 'c99', 'cxx', 'cxx'], 'tables': tables},
